@@ -31,8 +31,8 @@ theorem idx_lt (app : App) (j : Nat) (i : Gen.Instr) (h : app.instrs[j]? = some 
   · exact h'
   · rw [List.getElem?_eq_none h'] at h; cases h
 
-theorem seqIter_prefix (app : App) (a0 : Arch) : ∀ (n : Nat) (a : Arch), Proofs.Mvp4.seqIter app n a0 = some a →
-    ∀ m, m ≤ n → ∃ am, Proofs.Mvp4.seqIter app m a0 = some am := by
+theorem seqIter_prefix (app : App) (a0 : Arch) : ∀ (n : Nat) (a : Arch), seqL app n a0 = some a →
+    ∀ m, m ≤ n → ∃ am, seqL app m a0 = some am := by
   intro n
   induction n with
   | zero =>
@@ -43,15 +43,15 @@ theorem seqIter_prefix (app : App) (a0 : Arch) : ∀ (n : Nat) (a : Arch), Proof
   | succ n ih =>
     intro a h m hm
     rcases Nat.lt_or_ge m (n + 1) with hlt | hge
-    · cases hn : Proofs.Mvp4.seqIter app n a0 with
-      | none => simp only [Proofs.Mvp4.seqIter, hn, Option.bind_none] at h; cases h
+    · cases hn : seqL app n a0 with
+      | none => simp only [seqL, hn, Option.bind_none] at h; cases h
       | some an => exact ih an hn m (by omega)
     · have : m = n + 1 := by omega
       exact ⟨a, by rw [this]; exact h⟩
 
 /-- registers no instruction in between writes keep their value along the unpipelined run -/
 theorem seq_frame_range (app : App) (a0 : Arch) (hp : ProgLd app a0) (r : Reg) (m : Nat) : ∀ (d : Nat) (am an : Arch),
-    Proofs.Mvp4.seqIter app m a0 = some am → Proofs.Mvp4.seqIter app (m + d) a0 = some an →
+    seqL app m a0 = some am → seqL app (m + d) a0 = some an →
     (∀ l i, m ≤ l → l < m + d → app.instrs[l]? = some i → r ∉ i.writeRegisters) →
     GoMap.get1 an.ctx.Registers r = GoMap.get1 am.ctx.Registers r := by
   intro d
@@ -66,7 +66,7 @@ theorem seq_frame_range (app : App) (a0 : Arch) (hp : ProgLd app a0) (r : Reg) (
     obtain ⟨ad, hd⟩ := seqIter_prefix app a0 (m + (d + 1)) an h2 (m + d) (by omega)
     have e1 := ih am ad h1 hd (fun l i h3 h4 => hw l i h3 (by omega))
     obtain ⟨f1, f2, _⟩ := seq_facts app a0 hp (m + d) ad hd
-    have h2' : Proofs.Mvp4.seqIter app (m + d + 1) a0 = some an := h2
+    have h2' : seqL app (m + d + 1) a0 = some an := h2
     obtain ⟨i, _, _, hi, _, _, _⟩ := seq_succ app a0 hp (m + d) ad an hd f1 f2 h2'
     rw [seq_frame app a0 hp (m + d) ad an i hd h2' hi r (hw (m + d) i (by omega) (by omega) hi), e1]
 
@@ -139,19 +139,20 @@ bus is the result of the unpipelined step; `indep`/`ww`: two instructions in fli
 `isDataHazard3` ensure at issue); `sbW`/`sbR`: every instruction in flight is on the scoreboards. -/
 structure BackO (app : App) (a0 : Arch) (c : Word) (ctx : Model.Context) (X : List Runner) (H : List (Option Runner))
     (W : List ExecCtx) (nt : Nat) : Prop where
-  st : ∃ St, Proofs.Mvp4.seqIter app nt a0 = some St
+  st : ∃ St, seqL app nt a0 = some St
   xchain : Chain app nt X
   xseq : ∀ x ∈ X, x.seq = x.pc + c
   ratS : ctx.rat = false
   txS : ctx.Transaction.entries = []
+  zr : GoMap.get1 ctx.Registers Gen.Reg.Zero = 0#32
   hidx : ∀ x, some x ∈ H → ∃ j, j < nt ∧ ROk app c x j
-  widx : ∀ ec ∈ W, ∃ j x e aj bytes, j < nt ∧ ROk app c x j ∧ ec = ecOf x e ∧ Proofs.Mvp4.seqIter app j a0 = some aj ∧
+  widx : ∀ ec ∈ W, ∃ j x e aj bytes, j < nt ∧ ROk app c x j ∧ ec = ecOf x e ∧ seqL app j a0 = some aj ∧
     (x.instr.memoryRead aj.ctx 0#32).mapM (Model.Seq.readMem aj.ctx.Memory) = some bytes ∧
     x.instr.run aj.ctx app.labels aj.pc bytes 0#32 = .ok e
-  regsA : ∀ St, Proofs.Mvp4.seqIter app nt a0 = some St → ∀ r, r ≠ Gen.Reg.Zero →
+  regsA : ∀ St, seqL app nt a0 = some St → ∀ r, r ≠ Gen.Reg.Zero →
     (∀ x, some x ∈ H → r ∉ x.instr.writeRegisters) → (∀ ec ∈ W, r ∉ ec.writeRegisters) →
     GoMap.get1 ctx.Registers r = GoMap.get1 St.ctx.Registers r
-  opsB : ∀ x j aj, some x ∈ H → ROk app c x j → Proofs.Mvp4.seqIter app j a0 = some aj →
+  opsB : ∀ x j aj, some x ∈ H → ROk app c x j → seqL app j a0 = some aj →
     ∀ r ∈ x.instr.readRegisters, r ≠ Gen.Reg.Zero → GoMap.get1 ctx.Registers r = GoMap.get1 aj.ctx.Registers r
   indep : ∀ j1 j2 i1 i2, FlO app c X H W j1 → FlO app c X H W j2 → j1 ≠ j2 → app.instrs[j1]? = some i1 →
     app.instrs[j2]? = some i2 → ∀ r ∈ i1.readRegisters, r ≠ Gen.Reg.Zero → r ∉ i2.writeRegisters
@@ -273,7 +274,7 @@ theorem BackO.issue (hb : BackO app a0 c ctx X H W nt) (hsm : app.instrs.length 
     refine ⟨fun hw => ?_, fun hw => ?_⟩
     · have h2 := hb.writer_pos hsm j i hf hi reg hne hw; omega
     · have h2 := hb.reader_pos hsm j i hf hi reg hne hw; omega
-  refine ⟨hb.st, by rw [chain_append]; exact ⟨hb.xchain, hr.1, trivial⟩, ?_, hb.ratS, hb.txS, hb.hidx, hb.widx, hb.regsA, hb.opsB,
+  refine ⟨hb.st, by rw [chain_append]; exact ⟨hb.xchain, hr.1, trivial⟩, ?_, hb.ratS, hb.txS, hb.zr, hb.hidx, hb.widx, hb.regsA, hb.opsB,
     ?_, ?_, hb.uHW, hb.uHH, ?_, ?_⟩
   · intro x hx
     rcases List.mem_append.mp hx with hx | hx
@@ -323,7 +324,7 @@ theorem getElem?_set_cases {α : Type} (l : List α) (i k : Nat) (a b : α) (h :
 
 /-- **take**: an execute unit takes the oldest issued runner off the execute bus (the unpipelined run can take the step) -/
 theorem BackO.take {x : Runner} {X' : List Runner} (hb : BackO app a0 c ctx (x :: X') H W nt) (hp : ProgLd app a0) (i : Nat)
-    (hi : H[i]? = some none) (St1 : Arch) (hst1 : Proofs.Mvp4.seqIter app (nt + 1) a0 = some St1) :
+    (hi : H[i]? = some none) (St1 : Arch) (hst1 : seqL app (nt + 1) a0 = some St1) :
     BackO app a0 c ctx X' (H.set i (some x)) W (nt + 1) := by
   have hsm := hp.small
   have hx : ROk app c x nt := ⟨hb.xchain.1, by rw [hb.xseq x List.mem_cons_self, hb.xchain.1.1]⟩
@@ -349,7 +350,7 @@ theorem BackO.take {x : Runner} {X' : List Runner} (hb : BackO app a0 c ctx (x :
       · exact Or.inl ⟨y, List.mem_cons_self, hok⟩
     · exact Or.inr (Or.inr h)
   have hxfl : FlO app c (x :: X') H W nt := Or.inl ⟨x, List.mem_cons_self, hx⟩
-  refine ⟨⟨St1, hst1⟩, hb.xchain.2, fun y hy => hb.xseq y (List.mem_cons_of_mem _ hy), hb.ratS, hb.txS, ?_, ?_, ?_, ?_, ?_, ?_, ?_, ?_,
+  refine ⟨⟨St1, hst1⟩, hb.xchain.2, fun y hy => hb.xseq y (List.mem_cons_of_mem _ hy), hb.ratS, hb.txS, hb.zr, ?_, ?_, ?_, ?_, ?_, ?_, ?_, ?_,
     ?_, ?_⟩
   · intro y hy
     rcases hmem y hy with h | rfl
@@ -426,7 +427,7 @@ theorem BackO.take {x : Runner} {X' : List Runner} (hb : BackO app a0 c ctx (x :
 /-- **execute**: a unit executes the runner it holds; the result (the one of the unpipelined step) goes to the write bus -/
 theorem BackO.exec (hb : BackO app a0 c ctx X H W nt) (hsm : app.instrs.length < 250) (i : Nat) (x : Runner)
     (hi : H[i]? = some (some x)) (j : Nat) (aj : Arch) (bytes : List Byte) (e : Gen.Execution) (hok : ROk app c x j)
-    (haj : Proofs.Mvp4.seqIter app j a0 = some aj)
+    (haj : seqL app j a0 = some aj)
     (hby : (x.instr.memoryRead aj.ctx 0#32).mapM (Model.Seq.readMem aj.ctx.Memory) = some bytes)
     (hrun : x.instr.run aj.ctx app.labels aj.pc bytes 0#32 = .ok e) :
     BackO app a0 c ctx X (H.set i none) (W ++ [ecOf x e]) nt := by
@@ -453,7 +454,7 @@ theorem BackO.exec (hb : BackO app a0 c ctx X H W nt) (hsm : app.instrs.length <
         rw [hok.2] at hs'
         have := pcOf_add_inj c jx l (by omega) (by have := hs.2; omega) hs'
         subst this; exact hok
-  refine ⟨hb.st, hb.xchain, hb.xseq, hb.ratS, hb.txS, fun y hy => hb.hidx y (hmem y hy), ?_, ?_, ?_, ?_, ?_, ?_, ?_, ?_, ?_⟩
+  refine ⟨hb.st, hb.xchain, hb.xseq, hb.ratS, hb.txS, hb.zr, fun y hy => hb.hidx y (hmem y hy), ?_, ?_, ?_, ?_, ?_, ?_, ?_, ?_, ?_⟩
   · intro ec hec
     rcases List.mem_append.mp hec with hec | hec
     · exact hb.widx ec hec
@@ -501,6 +502,49 @@ theorem BackO.exec (hb : BackO app a0 c ctx X H W nt) (hsm : app.instrs.length <
     simp only [cntWr, List.map_append, List.sum_append, List.map_cons, List.map_nil, List.sum_cons, List.sum_nil, ecOf] at this hs ⊢
     omega
 
+/-- **a `ret` leaves its unit**: it reads and writes nothing, and nothing goes onto the write bus -/
+theorem BackO.retire (hb : BackO app a0 c ctx X H W nt) (i : Nat) (x : Runner) (hi : H[i]? = some (some x))
+    (hwx : x.instr.writeRegisters = []) : BackO app a0 c ctx X (H.set i none) W nt := by
+  have hmem : ∀ y, some y ∈ H.set i none → some y ∈ H := by
+    intro y hy
+    rcases mem_set_some hy with h | h
+    · exact h
+    · cases h
+  have hfl : ∀ l, FlO app c X (H.set i none) W l → FlO app c X H W l :=
+    fun l hf => hf.mono (fun _ h => h) hmem (fun _ h => h)
+  refine ⟨hb.st, hb.xchain, hb.xseq, hb.ratS, hb.txS, hb.zr, fun y hy => hb.hidx y (hmem y hy), hb.widx, ?_, ?_, ?_, ?_, ?_, ?_, ?_, ?_⟩
+  · intro St hst r hr hH hW
+    apply hb.regsA St hst r hr _ hW
+    intro y hy
+    obtain ⟨k, hk, hk'⟩ := List.getElem_of_mem hy
+    by_cases hki : k = i
+    · subst hki
+      rw [List.getElem?_eq_getElem hk, hk'] at hi
+      simp only [Option.some.injEq] at hi; subst hi; rw [hwx]; exact List.not_mem_nil
+    · exact hH y (List.mem_of_getElem? (by rw [List.getElem?_set_ne (Ne.symm hki), List.getElem?_eq_getElem hk, hk']))
+  · exact fun y l al hy => hb.opsB y l al (hmem y hy)
+  · intro j1 j2 i1 i2 hf1 hf2
+    exact hb.indep j1 j2 i1 i2 (hfl j1 hf1) (hfl j2 hf2)
+  · intro l1 l i1 i2 hf
+    exact hb.ww l1 l i1 i2 (hfl l1 hf)
+  · exact fun y hy ec hec => hb.uHW y (hmem y hy) ec hec
+  · intro i1 i2 x1 x2 hne h1 h2
+    rcases getElem?_set_cases H i i1 _ _ h1 with ⟨_, e1⟩ | ⟨_, e1⟩
+    · cases e1
+    · rcases getElem?_set_cases H i i2 _ _ h2 with ⟨_, e2⟩ | ⟨_, e2⟩
+      · cases e2
+      · exact hb.uHH i1 i2 x1 x2 hne e1 e2
+  · intro r hr
+    have := hb.sbW r hr
+    have hs := hsum_set (fun y => y.instr.writeRegisters.count r) H i (some x) none hi
+    simp only at hs
+    omega
+  · intro r hr
+    have := hb.sbR r hr
+    have hs := hsum_set (fun y => y.instr.readRegisters.count r) H i (some x) none hi
+    simp only at hs
+    omega
+
 /-- **write back**: a write unit takes the oldest result off the write bus -/
 theorem BackO.writeback {ec : ExecCtx} (hb : BackO app a0 c ctx X H (ec :: W) nt) (hp : ProgLd app a0) :
     BackO app a0 c (deletePendingRegisters (if ec.execution.RegisterChange then Model.Seq.writeRegister ctx ec.execution else ctx)
@@ -532,10 +576,19 @@ theorem BackO.writeback {ec : ExecCtx} (hb : BackO app a0 c ctx X H (ec :: W) nt
       have : (r == e.Register) = false := by simpa using hr
       simp only [this, Bool.false_eq_true, if_false]
     · rfl
-  refine ⟨hb.st, hb.xchain, hb.xseq, ?_, ?_, hb.hidx, fun ec hec => hb.widx ec (List.mem_cons_of_mem _ hec), ?_, ?_, ?_, ?_, ?_,
+  refine ⟨hb.st, hb.xchain, hb.xseq, ?_, ?_, ?_, hb.hidx, fun ec hec => hb.widx ec (List.mem_cons_of_mem _ hec), ?_, ?_, ?_, ?_, ?_,
     hb.uHH, ?_, ?_⟩
   · rw [← hctx']; cases hrc : e.RegisterChange <;> simp only [deletePendingRegisters, ecOf, hrc, if_true, Bool.false_eq_true, if_false, Model.Seq.writeRegister] <;> exact hb.ratS
   · rw [← hctx']; cases hrc : e.RegisterChange <;> simp only [deletePendingRegisters, ecOf, hrc, if_true, Bool.false_eq_true, if_false, Model.Seq.writeRegister] <;> exact hb.txS
+  · rw [hregs]
+    split
+    · rename_i hrc
+      rw [Proofs.Mvp4.get1_set]
+      split
+      · rename_i heq
+        exact run_zero x.instr aj.ctx app.labels aj.pc bytes 0#32 e hrun (eq_of_beq heq).symm hrc
+      · exact hb.zr
+    · exact hb.zr
   · intro St hst r hr hH hW
     by_cases hrx : r ∈ x.instr.writeRegisters
     · -- the register this result writes: its value is that of the unpipelined run after step `j`, and nobody behind writes it
@@ -592,6 +645,14 @@ theorem BackO.writeback {ec : ExecCtx} (hb : BackO app a0 c ctx X H (ec :: W) nt
     rw [hpr]
     simp only [cntWr, List.map_cons, List.sum_cons, ecOf] at h1 ⊢
     omega
+
+/-- the invariant looks at the registers, the scoreboards and the two flags of the context only -/
+theorem BackO.congr_ctx (hb : BackO app a0 c ctx X H W nt) (ctx' : Model.Context) (h1 : ctx'.Registers = ctx.Registers)
+    (h2 : ctx'.PendingWriteRegisters = ctx.PendingWriteRegisters) (h3 : ctx'.PendingReadRegisters = ctx.PendingReadRegisters)
+    (h4 : ctx'.rat = ctx.rat) (h5 : ctx'.Transaction = ctx.Transaction) : BackO app a0 c ctx' X H W nt :=
+  ⟨hb.st, hb.xchain, hb.xseq, by rw [h4]; exact hb.ratS, by rw [h5]; exact hb.txS, by rw [h1]; exact hb.zr, hb.hidx, hb.widx,
+   by rw [h1]; exact hb.regsA, by rw [h1]; exact hb.opsB, hb.indep, hb.ww, hb.uHW, hb.uHH, by rw [h2]; exact hb.sbW,
+   by rw [h3]; exact hb.sbR⟩
 
 end
 
